@@ -32,6 +32,7 @@ type EntrySpec struct {
 	Bounds       string   `json:"bounds"`
 	What         string   `json:"what"`
 	MaxSchedPts  int      `json:"max_sched_points"`
+	Conformance  bool     `json:"conformance"` // translator self-test on the repository's own test vectors: a failure is an engine fault
 	HangSteps    int      `json:"hang_steps"` // exceeding this many interpreted instructions on one path is a "hang" violation
 	Native       bool     `json:"native"` // counterexamples of this entry are replayed natively
 }
@@ -226,6 +227,8 @@ func cmdCheck(args []string) {
 	entryPkg := map[string]PkgSpec{}
 	entryNative := map[string]bool{}
 	nativeRun, nativeOK := 0, 0
+	conformanceRun, conformanceOK := 0, 0
+	crossChecked, crossDisagree := 0, 0
 	var nativeNotes []string
 	var inconclusive []string
 	funcs := map[string]int{}
@@ -322,6 +325,7 @@ func cmdCheck(args []string) {
 			cfg.MapOrderAll = es.MapOrder
 			cfg.AllowBlocked = es.AllowBlocked
 			cfg.HashTransparent = es.HashTransparent
+			cfg.CrossCheck = *tier == "thorough" || os.Getenv("VERIF_CROSS") != ""
 			cfg.MaxSchedPoints = es.MaxSchedPts
 			if es.HangSteps > 0 {
 				cfg.MaxSteps = es.HangSteps
@@ -409,9 +413,27 @@ func cmdCheck(args []string) {
 						"path_condition_conjuncts": s.PCLen, "ssa_instructions": s.Steps, "assertions_discharged": s.AssertsOK, "reach": s.Reached})
 				}
 			}
+			if es.Conformance {
+				conformanceRun++
+				if len(res.Violations) > 0 {
+					msg := fmt.Sprintf("engine self-test failed: %s does not reproduce the repository's own test vectors (%s) - no verdict of this run should be trusted", es.Entry, res.Violations[0].Label)
+					fmt.Println("INCONCLUSIVE", msg)
+					inconclusive = append(inconclusive, msg)
+				} else {
+					conformanceOK++
+				}
+				continue
+			}
 			allViolations = append(allViolations, res.Violations...)
 		}
 		prog.mu.Lock()
+		crossChecked += prog.crossChecked
+		crossDisagree += prog.crossDisagree
+		for _, m := range prog.inconclusive {
+			if strings.HasPrefix(m, "solver disagreement") {
+				inconclusive = append(inconclusive, m)
+			}
+		}
 		for s := range prog.stubsUsed {
 			stubs[s] = true
 		}
@@ -510,6 +532,8 @@ func cmdCheck(args []string) {
 		"transitions":                   trans,
 		"traces_validated_against_impl": nativeOK, // counterexamples (incl. the must-fail twin's) reproduced by `go test` against the real build
 		"native_replays_run":            nativeRun,
+		"cross_solver":                  fmt.Sprintf("%d assertion discharges re-asked of z3 4.8.12, %d disagreements", crossChecked, crossDisagree),
+		"conformance_entries":           fmt.Sprintf("%d/%d reproduce the repository's own test vectors inside the engine", conformanceOK, conformanceRun),
 		"native_replay_notes":           nativeNotes,
 		"samples":                       samples,
 		"explanation": "bounded symbolic model checking of the real code: states = completed symbolic paths (each covers all input values satisfying its path condition), " +
